@@ -5,7 +5,7 @@
    numpy.sort and scipy.stats.norm.ppf / norm.cdf enter as Section variables: sort with the contract
    "an ordered permutation of its input"; ppf and cdf need no contract for any statement below. *)
 From Coq Require Import Reals List Permutation Sorted.
-From PL Require Import Common.RPrelude WFit.OLS WFit.Zones WFit.Elem.
+From PL Require Import Common.RPrelude WFit.OLS WFit.Zones WFit.Elem WFit.Probit WFit.Likelihood.
 Import ListNotations.
 Open Scope R_scope.
 
@@ -96,7 +96,53 @@ Theorem elementary_staged d FF T :
           (pearl_TN (normed_cycles_m (normed_load FF) (fit_slope FF) FF) (map ppf (rossow (length FF)))).
 Proof. exact (Elem.elementary_staged ppf sortR sort_perm sort_sorted d FF T). Qed.
 
+(* ---------------------------------------------------------------- Probit *)
+Theorem probit_load_equivariant c d : 0 < c -> positive d -> finite_fractures d <> [] ->
+  (2 <= length (levels_of (infinite_zone d)))%nat -> probit_slope ppf d <> 0 ->
+  let w := probit ppf sortR d in let w' := probit ppf sortR (scale_load c d) in
+  SD w' = c * SD w /\ TS w' = TS w /\ k_1 w' = k_1 w /\ TN w' = TN w /\ ND w' = ND w.
+Proof. exact (Probit.probit_load_equivariant ppf sortR c d). Qed.
+
+Theorem probit_cycle_equivariant c d : 0 < c -> positive d -> finite_fractures d <> [] ->
+  let w := probit ppf sortR d in let w' := probit ppf sortR (scale_cycles c d) in
+  ND w' = c * ND w /\ SD w' = SD w /\ TS w' = TS w /\ k_1 w' = k_1 w /\ TN w' = TN w.
+Proof. exact (Probit.probit_cycle_equivariant ppf sortR sort_perm sort_sorted c d). Qed.
+
+Theorem probit_perm_invariant a b : Permutation a b -> probit ppf sortR a = probit ppf sortR b.
+Proof. exact (Probit.probit_perm_invariant ppf sortR sort_perm sort_sorted a b). Qed.
+
 End Estimator.
+
+(* ---------------------------------------------------------------- maximum likelihood (fmin itself is not modelled: partial) *)
+Section MaxLike.
+Variable Phi : R -> R.
+
+Theorem likelihood_load_invariant c d sd ts k nd tn : 0 < c -> sd <> 0 ->
+  lh_total Phi (scale_load c d) (c * sd) ts k nd tn = lh_total Phi d sd ts k nd tn.
+Proof. exact (Likelihood.lh_total_load Phi c d sd ts k nd tn). Qed.
+
+Theorem likelihood_cycle_invariant c d sd ts k nd tn : 0 < c -> 0 < sd -> 0 < nd -> positive d ->
+  lh_total Phi (scale_cycles c d) sd ts k (c * nd) tn = lh_total Phi d sd ts k nd tn.
+Proof. exact (Likelihood.lh_total_cycles Phi c d sd ts k nd tn). Qed.
+
+Theorem likelihood_perm_invariant a b sd ts k nd tn : Permutation a b ->
+  lh_total Phi a sd ts k nd tn = lh_total Phi b sd ts k nd tn.
+Proof. exact (Likelihood.lh_total_perm Phi a b sd ts k nd tn). Qed.
+
+(* an exact likelihood maximiser is equivariant; that scipy's Nelder-Mead returns one is NOT proved (partial) *)
+Theorem ml_argmax_load_equivariant_partial c d sd ts k nd tn : 0 < c ->
+  is_ml Phi d sd ts k nd tn -> is_ml Phi (scale_load c d) (c * sd) ts k nd tn.
+Proof. exact (Likelihood.ml_argmax_load_equivariant Phi c d sd ts k nd tn). Qed.
+
+Theorem ml_argmax_cycle_equivariant_partial c d sd ts k nd tn : 0 < c -> positive d ->
+  is_ml Phi d sd ts k nd tn -> is_ml Phi (scale_cycles c d) sd ts k (c * nd) tn.
+Proof. exact (Likelihood.ml_argmax_cycle_equivariant Phi c d sd ts k nd tn). Qed.
+
+Theorem ml_argmax_perm_invariant_partial a b sd ts k nd tn : Permutation a b ->
+  is_ml Phi a sd ts k nd tn -> is_ml Phi b sd ts k nd tn.
+Proof. exact (Likelihood.ml_argmax_perm_invariant Phi a b sd ts k nd tn). Qed.
+
+End MaxLike.
 
 (* the contract on sort is satisfiable, the hypotheses of the theorems are satisfiable *)
 Theorem sort_contract_satisfiable : exists sortR : list R -> list R,
@@ -121,5 +167,14 @@ Print Assumptions elementary_cycle_equivariant.
 Print Assumptions elementary_perm_invariant.
 Print Assumptions exact_basquin_line_recovered.
 Print Assumptions elementary_staged.
+Print Assumptions probit_load_equivariant.
+Print Assumptions probit_cycle_equivariant.
+Print Assumptions probit_perm_invariant.
+Print Assumptions likelihood_load_invariant.
+Print Assumptions likelihood_cycle_invariant.
+Print Assumptions likelihood_perm_invariant.
+Print Assumptions ml_argmax_load_equivariant_partial.
+Print Assumptions ml_argmax_cycle_equivariant_partial.
+Print Assumptions ml_argmax_perm_invariant_partial.
 Print Assumptions sort_contract_satisfiable.
 Print Assumptions hypotheses_satisfiable.
